@@ -74,7 +74,11 @@ type FakeStream struct {
 	// StatusDelay: after a Send failure the status reaches Recv only this much later
 	// (on a real transport the two sides of a stream learn of its end separately).
 	StatusDelay time.Duration
-	brokenAt    time.Time
+	// FailDirect: the failing Send returns the status itself (a client-generated error)
+	// instead of io.EOF, after SendFailDelay.
+	FailDirect    bool
+	SendFailDelay time.Duration
+	brokenAt      time.Time
 	nSend       int
 	broken      error
 	closedSend  bool
@@ -122,8 +126,16 @@ func (s *FakeStream) Send(m *spb.ModifyRequest) error {
 		}
 	}
 	if s.broken != nil {
+		direct, delay, ferr := s.FailDirect, s.SendFailDelay, s.broken
 		s.mu.Unlock()
 		s.cond.Broadcast()
+		if direct {
+			// an error generated on the client side of the stream (message too large, the
+			// context ended): gRPC returns the status from SendMsg itself, after having
+			// worked on the message for a while
+			time.Sleep(delay)
+			return ferr
+		}
 		return io.EOF // gRPC: Send returns io.EOF, the status is delivered by Recv
 	}
 	s.Sent = append(s.Sent, m)
